@@ -6,6 +6,7 @@
   <arr> = <name-hex>:<TYPE>:<esz>:<n>:<elems-hex>
 -/
 import OpmVerif.Model.EclBin
+-- driver: prefix=eclbin handler=OpmVerif.Ecl.handleEclBin
 
 namespace OpmVerif.Ecl
 open ArrType
